@@ -5,6 +5,7 @@ from itertools import product
 from ..astq import Node, up, strip, strip_cast, walk_no_nested_fn, calls, dominates, binding_before, precedes_toplevel
 from ..rules.pred import Pred, check_table, weak_orders, order_str, NotComparisonOnly
 from ..rules.interp import Interp, NotPure
+from ..astq import _tnorm
 from ..rules.layout import origin
 
 R = "bigtools/src/bbi/bbiread.rs"
@@ -182,7 +183,7 @@ def ob_wig_keep(ctx, res):
                 continue
         else:
             try:
-                p = Pred(n["cond"])
+                p = Pred(_tnorm(fn, n["cond"]))
             except NotComparisonOnly as e:
                 res.fail("wigKeep/not-cmp", n, str(e))
                 continue
@@ -318,7 +319,7 @@ def ob_bed_keep(ctx, res):
         o = origin(fn, nn)
         return {"p%d" % qp[0]: "s", "p%d" % qp[1]: "e"}.get(o)
     try:
-        p = Pred(n["cond"])
+        p = Pred(_tnorm(fn, n["cond"]))
     except NotComparisonOnly as e:
         res.fail("bedKeep/not-cmp", n, str(e))
         return
@@ -369,7 +370,7 @@ def ob_zoom_keep(ctx, res):
             o = origin(fn, nn)
             return {"p%d" % pc: "c", "p%d" % ps: "s", "p%d" % pe: "e"}.get(o)
         try:
-            p = Pred(n["cond"])
+            p = Pred(_tnorm(fn, n["cond"]))     # private one-expression helpers and pure temporaries inlined
         except NotComparisonOnly as e:
             res.fail("zoomKeep/not-cmp", n, str(e))
             continue
@@ -535,7 +536,7 @@ def _guards(ctx, res, fn, specs, first_effects):
             if id(n) in used:
                 continue
             try:
-                p = Pred(n["cond"])
+                p = Pred(_tnorm(fn, n["cond"]))
             except NotComparisonOnly:
                 continue
             rows, cex, err = check_table(p, role, roles, side, ref, "equiv")
@@ -655,7 +656,7 @@ def _flush(ctx, res, fn, what):
             return "ips"
         return None
     try:
-        p = Pred(n["cond"])
+        p = Pred(_tnorm(fn, n["cond"]))
     except NotComparisonOnly as e:
         res.fail(what + "/not-cmp", n, str(e))
         return
@@ -746,7 +747,7 @@ def ob_reader_writer_contradiction(ctx, res):
             return "zero"
         return None
     try:
-        p = Pred(n["cond"])
+        p = Pred(_tnorm(rd, n["cond"]))
     except NotComparisonOnly as e:
         res.fail("contradiction/not-cmp", n, str(e))
         return
